@@ -83,7 +83,10 @@ class InEndpointBfm:
     def _host_got_dp(self, dp):
         if self.hstate != "WAIT":
             dp["unsolicited"] = True
+            self.stop_reason = "anomaly"            # the oracle fails at this event; no point in going on
             return
+        if dp.get("truncated") or dp["framing"] or dp["seq"] != self.hseq:
+            self.stop_reason = "anomaly"
         d = self._decision()
         bad = bool(dp.get("truncated") or dp["framing"]) or (d["verdict"] == "retry" and self.retries < 2)
         self.hstate = "IDLE"
@@ -175,6 +178,9 @@ class InEndpointBfm:
                                                   f"taken ({dp['nwords']} words taken)")
                 dp["truncated"] = True
                 self._close_dp(t - 1)
+
+        if self.stop_reason == "anomaly":
+            return None
 
         # ---------- inputs for cycle t ----------
         vec = dict(svalid=0, sfirst=0, slast=0, sdata=0, ack=0, hep=0, nump=0, rty=0, hseq=0,
